@@ -24,6 +24,8 @@ import GoProbeModel.Spec.C27
 import GoProbeModel.Spec.C21
 import GoProbeModel.Spec.C07
 import GoProbeModel.Spec.C02
+import GoProbeModel.Spec.C26
+import GoProbeModel.Spec.C25
 
 /-!
 `gpjudge`: executable specs. Reads lines `<Cxx> <case fields…> => <implementation output>` and
@@ -55,5 +57,7 @@ def main : IO Unit := DriverLoop.runJudge [
   ("C27", C27.judge),
   ("C21", C21.judge),
   ("C07", C07.judge),
-  ("C02", C02.judge)
+  ("C02", C02.judge),
+  ("C26", C26.judge),
+  ("C25", C25.judge)
 ]
